@@ -91,8 +91,15 @@ type knownFinding struct {
 	What     string `json:"what"`
 }
 
+// known_findings.txt (committed, never written at run time):
+//
+//	open: property=<id> key=<obligation key> :: <what fails>
+//	fixed: property=<id> <commit> <what failed>
+//
+// Only "open:" lines suppress (exactly one obligation key each); "fixed:" lines are a
+// record and suppress nothing.
 func loadKnown() []knownFinding {
-	f, err := os.Open(filepath.Join(verifDir, "known_findings.jsonl"))
+	f, err := os.Open(filepath.Join(verifDir, "known_findings.txt"))
 	if err != nil {
 		return nil
 	}
@@ -102,11 +109,23 @@ func loadKnown() []knownFinding {
 	sc.Buffer(make([]byte, 1<<20), 1<<20)
 	for sc.Scan() {
 		line := strings.TrimSpace(sc.Text())
-		if line == "" || strings.HasPrefix(line, "#") {
+		if !strings.HasPrefix(line, "open:") {
 			continue
 		}
-		var k knownFinding
-		if json.Unmarshal([]byte(line), &k) == nil {
+		rest := strings.TrimSpace(strings.TrimPrefix(line, "open:"))
+		what := ""
+		if i := strings.Index(rest, " :: "); i >= 0 {
+			what = rest[i+4:]
+			rest = rest[:i]
+		}
+		k := knownFinding{Status: "open", What: what}
+		if strings.HasPrefix(rest, "property=") {
+			j := strings.Index(rest, " key=")
+			if j < 0 {
+				continue
+			}
+			k.Property = rest[len("property="):j]
+			k.Key = rest[j+len(" key="):]
 			out = append(out, k)
 		}
 	}
